@@ -1,14 +1,20 @@
 (* C05 - A correct node's own votes obey the voting rules under every event order.
-   PARTIAL: proved for the Votor model - the guard under which each kind of vote is cast (finalize,
-   notarize, skip) for every state and event, and verbatim forwarding of standstill bundles.  The
-   trace-level statements (at most one initial vote per slot across pruning, nothing after finalize,
-   own votes never a slashable combination) are decided by the oracle c05_step_ok on the
-   implementation's broadcast log for generated event sequences, by replaying the own votes through
-   the proved vote-admission model (C04), and by the model/implementation correspondence.  The clause
+   Proved for the Votor model - the guard under which each kind of vote is cast (finalize, notarize,
+   skip) for every state and event, verbatim forwarding of standstill bundles, and the TRACE-level
+   statement for every input sequence from the initial state (C05_every_trace_obeys_the_rules, proved
+   with an 8-clause per-slot invariant through all handlers and pruning): at most one initial vote
+   (notar XOR skip) per slot, final(s) only for the block it notarized in s, with that block's notar
+   certificate seen and no skip / fallback vote in s, nothing but a repeated final vote after
+   final(s), notar only on a ParentReady parent (window start) or on the block it notarized in the
+   previous slot, fallback votes only in response to the pool's SafeToNotar / SafeToSkip events
+   (Model/NodeRules.v: vote_okb / trace_ok is the executable statement).  PARTIAL in this respect
+   only: that own votes are never a slashable combination w.r.t. the pool's conflict relation is
+   decided by replaying the own votes of the implementation through the proved vote-admission model
+   (C04) in the oracle c05_step_ok, and by the model/implementation correspondence.  The clause
    "fallback votes only after the condition held at that node" concerns the composition with the pool
    and is decided by C06. *)
 From Coq Require Import List NArith Bool.
-From AG Require Import Gen.Params Model.Pool Model.PoolSpec Model.Votor Proofs.VotorProofs.
+From AG Require Import Gen.Params Model.Pool Model.PoolSpec Model.Votor Model.NodeRules Proofs.VotorProofs Proofs.SafetyLink.
 Import ListNotations.
 Open Scope N_scope.
 
@@ -39,7 +45,12 @@ Theorem C05_standstill_forwarded : forall own t s cs vs,
   votor_step own t (VPool (EStandstill s cs vs)) = (t, map VBCert cs ++ map VBVote vs, false).
 Proof. exact standstill_forwarded. Qed.
 
+Theorem C05_every_trace_obeys_the_rules : forall own ins,
+  trace_ok own [] ev_empty (votor_trace own votor_init ins) = true.
+Proof. exact votor_obeys_rules. Qed.
+
 Print Assumptions C05_final_vote_guard.
 Print Assumptions C05_notar_vote_guard.
 Print Assumptions C05_skip_window_votes.
 Print Assumptions C05_standstill_forwarded.
+Print Assumptions C05_every_trace_obeys_the_rules.
